@@ -7,6 +7,7 @@ from decimal import Decimal
 from fractions import Fraction
 
 from vpm import history
+from vpm import seams
 from vpm.oracles import exact as ex
 from vpm.oracles import sphere as sp
 
@@ -451,3 +452,17 @@ def run(mon, spec):
     jd0 = float(int(jd_of_year(spec["era"] + rng.uniform(0, 50)))) + 0.5
     mon.begin("walk", [planet, jd0, ndays])
     case_walk(mon, planet, jd0, ndays)
+    # short daily walks across the calendar seams (every Epoch(<number>) goes
+    # through the calendar): 12 days starting 5 days before, at 0h and at a
+    # random time of day
+    days = seams.seam_days()
+    pick = rng.sample(days, 10 if spec["full"] else 4) + \
+        [d for d in days if d[0] in ("first Gregorian day",
+                                     "century year 1900")][:3]
+    for lab, j0 in pick:
+        if jd_of_year(-1999.0) < j0 < jd_of_year(3999.0):
+            for off in (0.0, rng.random()):
+                mon.begin("walk", [planet, j0 - 5.0 + off, 12])
+                case_walk(mon, planet, j0 - 5.0 + off, 12)
+                mon.cls("walk-across-calendar-seam", (planet, j0, off),
+                        [planet, lab, j0])
